@@ -2,7 +2,7 @@
 """Run every check against every confirmed behaviour-preserving refactoring in
 /verif/twins/*: any finding that the unmodified tree does not have, or any
 analysis error, is a false alarm of the checker.
-usage: twinmatrix.py [--update-meta] [dir ...]"""
+usage: twinmatrix.py [--update-meta] [--jobs N] [--checks C01,C02] [dir ...]"""
 import glob, json, os, shutil, subprocess, sys, tempfile
 from concurrent.futures import ThreadPoolExecutor
 sys.path.insert(0, '/verif')
@@ -11,6 +11,15 @@ from pyuverif.registry import CHECKS
 args = sys.argv[1:]
 update = '--update-meta' in args
 args = [a for a in args if a != '--update-meta']
+jobs = 1
+if '--jobs' in args:
+    i = args.index('--jobs'); jobs = int(args[i + 1]); del args[i:i + 2]
+only = None
+if '--checks' in args:       # restrict to some checks (never with --update-meta)
+    i = args.index('--checks'); only = set(args[i + 1].split(',')); del args[i:i + 2]
+    update = False
+if only:
+    CHECKS = {c: v for c, v in CHECKS.items() if c in only}
 dirs = args or sorted(glob.glob('/verif/twins/*'))
 tmproot = tempfile.mkdtemp(prefix='twinmx_', dir=os.environ.get('TMPDIR', '/tmp'))
 
@@ -31,16 +40,19 @@ def run_all(repo):
                            capture_output=True, text=True)
         return c, p.returncode, keys_of(p.stdout), [l[:200] for l in p.stdout.splitlines()
                                                      if 'ANALYSIS-ERROR' in l][:2]
-    with ThreadPoolExecutor(16) as ex:
+    with ThreadPoolExecutor(16 if jobs == 1 else 2) as ex:
         return {r[0]: r[1:] for r in ex.map(one, sorted(CHECKS))}
 
 
 base = run_all('/repo')
 bad = 0
-for d in dirs:
+
+
+def do(d):
+    global bad
     patch = os.path.join(d, 'patch.diff')
     if not os.path.exists(patch):
-        continue
+        return
     name = os.path.basename(d.rstrip('/'))
     w = os.path.join(tmproot, name)
     os.makedirs(w)
@@ -51,7 +63,7 @@ for d in dirs:
     if r.returncode != 0:
         print(f'{name} PATCH FAILED')
         shutil.rmtree(w, ignore_errors=True)
-        continue
+        return
     res = run_all(w)
     shutil.rmtree(w, ignore_errors=True)
     noisy = {}
@@ -61,7 +73,7 @@ for d in dirs:
         new = sorted(keys - bkeys)
         if new or rc == 2:
             noisy[c] = {'new_findings': new[:6], 'errors': errs}
-    print(f'{name} -> ' + ('silent' if not noisy else 'NOISY ' + json.dumps(noisy)[:900]))
+    print(f'{name} -> ' + ('silent' if not noisy else 'NOISY ' + json.dumps(noisy)[:900]), flush=True)
     bad += bool(noisy)
     if update:
         mp = os.path.join(d, 'meta.json')
@@ -69,6 +81,10 @@ for d in dirs:
         m['checked_against'] = {'noisy_checks': noisy, 'verdict': 'silent' if not noisy else 'false alarm',
                                 'how': 'tools/twinmatrix.py: patch applied to a scratch copy, every check run with --repo, compared with the unmodified tree'}
         json.dump(m, open(mp, 'w'), indent=1)
+
+
+with ThreadPoolExecutor(jobs) as ex:
+    list(ex.map(do, dirs))
 shutil.rmtree(tmproot, ignore_errors=True)
 print(f'twins={len(dirs)} noisy={bad}')
 sys.exit(1 if bad else 0)
